@@ -121,6 +121,9 @@ def r2(ctx):
             return "ABORTED"
         return None
     TO = "self.timeout"
+    # (the worker was started with half the timeout as its notification interval: `worker.timeout`)
+    WV = loop.ast.target.elts[1].id if isinstance(loop.ast.target, ast.Tuple) and len(loop.ast.target.elts) == 2 and isinstance(loop.ast.target.elts[1], ast.Name) else "worker"
+    WT = WV + ".timeout"
     probes = {}
     for c in kills:
         for n in nodes_with(f, c):
@@ -129,7 +132,7 @@ def r2(ctx):
     for elapsed, timeout in ((1, 30), (30, 30), (29.9, 30), (30.1, 30), (31, 30), (1000, 30), (2, 1)):
         for ab in (False, True):
             ex = Explorer(f, atom_of=atom_of, tracked=["ABORTED"])
-            outs = ex.run(loop, {"ELAPSED": elapsed, TO: timeout, "ABORTED": ab}, stop=lambda n: n is loop, start_label="true", probes=probes)
+            outs = ex.run(loop, {"ELAPSED": elapsed, TO: timeout, WT: timeout / 2.0, "ABORTED": ab}, stop=lambda n: n is loop, start_label="true", probes=probes)
             got = set()
             for o in outs:
                 sig = [e[1] for e in o.events if isinstance(e, tuple) and e[0] == "kill"]
@@ -145,10 +148,21 @@ def r2(ctx):
             ctx.check("C11.R2", got == want, key(f, "escalation|late=%s|aborted=%s|%s/%s" % (late, ab, elapsed, timeout)), site(f, text="elapsed=%s timeout=%s aborted=%s" % (elapsed, timeout, ab)),
                       "murder_workers: (signals sent, aborted afterwards) = %s, required %s" % (sorted(map(str, got)), sorted(map(str, want))), "as table A.6")
     ctx.table("C11.R2 escalation", rows)
+    # a worker is judged by the timeout it was started with: a reload that lowers `timeout` (or enables it) must not make the
+    # arbiter kill an *old* worker that is still within the time its own configuration gives a request
+    for elapsed, new_to, old_to, late in ((5, 2, 20, False), (25, 2, 20, True), (5, 2, 0, False)):
+        ex = Explorer(f, atom_of=atom_of, tracked=["ABORTED"])
+        outs = ex.run(loop, {"ELAPSED": elapsed, TO: new_to, WT: old_to / 2.0, "ABORTED": False}, stop=lambda n: n is loop, start_label="true", probes=probes)
+        got = set(tuple(sorted(str(e[1]) for e in o.events if isinstance(e, tuple) and e[0] == "kill")) for o in outs)
+        want = {("@signal.SIGABRT",)} if late else {()}
+        ctx.check("C11.R2", got == want, key(f, "judged-by-its-own-timeout|%s|%s|%s" % (elapsed, new_to, old_to)), site(f, text="old worker started with timeout=%s, configuration re-loaded with timeout=%s, %s s since its last beat" % (old_to, new_to, elapsed)),
+                  "a worker started with timeout=%s is sent %s after %s s of silence once the configuration was re-loaded with timeout=%s, required %s: the new value is applied to workers of the old "
+                  "generation, whose in-flight requests are cut by the reload" % (old_to, sorted(got), elapsed, new_to, sorted(want)), "-> %s" % sorted(want))
     # timeout == 0 disables the scan
+    from ..absint import SpecObj
     ex = Explorer(f, atom_of=atom_of)
-    outs = ex.run(g.entry, {TO: 0}, watch={n.id: "kill" for c in kills for n in nodes_with(f, c)})
-    ctx.check("C11.R2", all("kill" not in o.events for o in outs) and all(loop not in o.path for o in outs), key(f, "timeout-0-disables"), site(f), "with timeout 0 (disabled) workers are still scanned/killed", "timeout 0 disables the scan")
+    outs = ex.run(g.entry, {TO: 0, "self.WORKERS": {4242: SpecObj(timeout=0.0, aborted=False)}, "ELAPSED": 1000}, watch={n.id: "kill" for c in kills for n in nodes_with(f, c)})
+    ctx.check("C11.R2", all("kill" not in o.events for o in outs), key(f, "timeout-0-disables"), site(f), "with timeout 0 (disabled) workers are still killed", "timeout 0 disables the scan")
     # a stat error skips the worker: when last_update() raises OSError the iteration ends without a signal and the
     # scan goes on (evaluated: the state in which the read is reached, continued from the clause that catches OSError)
     lu = [n for c in method_calls(f, "last_update") for n in nodes_with(f, c)]
@@ -165,7 +179,7 @@ def r2(ctx):
                 okk, why = False, "no clause catches %s from last_update() (%s)" % (exc_cls, "temp file closed by the SIGCHLD handler that just reaped this worker" if exc_cls == "ValueError" else "temp file gone")
                 break
             ex = Explorer(f, atom_of=atom_of, tracked=["ABORTED"])
-            pre = ex.run(loop, {TO: 30, "ABORTED": False}, stop=lambda n: n is L, start_label="true")
+            pre = ex.run(loop, {TO: 30, WT: 15.0, "ABORTED": False}, stop=lambda n: n is L, start_label="true")
             for o in pre:
                 if o.kind != "stop":
                     continue
@@ -235,19 +249,31 @@ def r3(ctx):
             cfgm = __import__("gverif.rules.common", fromlist=["cfg_attr"]).cfg_attr
             post = g.reachable([(t, "false") for t in g.tests() if t.stmt is loops[0]], follow_exc=False)
             for n_ in post:
-                if n_.ast is None or n_.kind not in ("stmt", "with", "test"):
+                if n_.ast is None or n_.kind not in ("stmt", "test"):
                     continue
-                if not any(cfgm(x) == "graceful_timeout" for root in n_.cover for x in ast.walk(root)):
-                    continue
-                inloop = [a for a in f.module.ancestors(n_.ast) if isinstance(a, ast.While)]
-                beats = any(any(isinstance(c, ast.Call) and isinstance(c.func, ast.Attribute) and c.func.attr == "notify" for c in ast.walk(a)) for a in inloop)
-                blocking = any(isinstance(c, ast.Call) and ((repo.call_target(f.module, f, c) or "").rsplit(".", 1)[-1] in ("wait", "Timeout", "join", "sleep") or
-                                                            (isinstance(c.func, ast.Attribute) and c.func.attr in ("wait", "join"))) for root in n_.cover for c in ast.walk(root))
-                if blocking:
-                    ctx.check("C11.R3", beats, key(f, "graceful-wait-beats|" + norm(n_.ast if n_.kind != "with" else n_.ast.items[0].context_expr)[:40]), site(f, n_),
-                              "after its serving loop %s waits for the requests in flight in one blocking call bounded by graceful_timeout (`%s`) without self.notify(): when graceful_timeout > timeout "
-                              "the arbiter sees no heartbeat, logs WORKER TIMEOUT and kills the worker -- every request that needed longer than `timeout` from the stop signal is cut" % (f.short, n_.text[:70]),
-                              "the graceful wait notifies at least every second")
+                waits = [c for root in n_.cover for c in ast.walk(root) if isinstance(c, ast.Call) and isinstance(c.func, ast.Attribute) and c.func.attr in ("wait", "join")
+                         and not (isinstance(c.func.value, ast.Name) and c.func.value.id in ("os", "time"))]
+                waits += [c for root in n_.cover for c in ast.walk(root) if isinstance(c, ast.Call) and (repo.call_target(f.module, f, c) or "").endswith("futures.wait") and c not in waits]
+                for c in waits:
+                    own = [a_ for a_ in list(c.args[1:] if (repo.call_target(f.module, f, c) or "").endswith("futures.wait") else c.args) + [k_.value for k_ in c.keywords if k_.arg == "timeout"]]
+                    withs = [a for a in f.module.ancestors(c) if isinstance(a, ast.With) and any(isinstance(x, ast.Call) and (repo.call_target(f.module, f, x) or norm(x.func)).endswith("Timeout")
+                                                                                                 for it in a.items for x in ast.walk(it.context_expr))]
+                    bound = own[0] if own else (withs[0].items[0].context_expr if withs else None)
+                    graceful = bound is not None and any(cfgm(x) == "graceful_timeout" for x in ast.walk(bound))
+                    short = bound is not None and not graceful
+                    inloop = [a for a in f.module.ancestors(c) if isinstance(a, ast.While)]
+                    beats = any(any(isinstance(cc, ast.Call) and isinstance(cc.func, ast.Attribute) and cc.func.attr == "notify" for cc in ast.walk(a)) for a in inloop)
+                    if not (graceful or bound is None or short):
+                        continue
+                    if not any(cfgm(x) == "graceful_timeout" for root in ([bound] if bound is not None else []) for x in ast.walk(root)) and not withs and bound is not None and not inloop:
+                        continue          # (a short wait outside any loop: not the graceful wait)
+                    if bound is None and not withs:
+                        continue          # (an unbounded wait that is not under the graceful Timeout: judged by the blocking-call rule)
+                    shown = withs[0].items[0].context_expr if (not own and withs) else c
+                    ctx.check("C11.R3", short and beats, key(f, "graceful-wait-beats|" + norm(shown)[:40]), site(f, n_),
+                              "after its serving loop %s waits for the requests in flight in a blocking call bounded only by graceful_timeout (`%s`) without self.notify() in between: when "
+                              "graceful_timeout > timeout the arbiter sees no heartbeat, logs WORKER TIMEOUT and kills the worker -- every request that needed longer than `timeout` from the stop "
+                              "signal is cut" % (f.short, norm(shown)[:70]), "the graceful wait is sliced and notifies at least every second")
             w = loops[0]
             # blocking calls in the loop
             for c in [x for x in ast.walk(w) if isinstance(x, ast.Call)]:
